@@ -437,8 +437,14 @@ fn meta(display: &str, raw: &str, module_path: &str, line: u32, col: u32) -> Ent
     }
 }
 
+/// The Rust spelling of an item shown as `name`: `a5` stands for an item written with a raw identifier
+/// (`fn r#a5`, `mod r#a5`), whose raw name and module path keep the `r#` that the display name drops.
+fn raw_of(name: &str) -> String {
+    if name == "a5" { "r#a5".to_owned() } else { name.to_owned() }
+}
+
 fn bench_entry(name: &str, module_path: &str, line: u32, col: u32) -> &'static BenchEntry {
-    Box::leak(Box::new(BenchEntry { meta: meta(name, name, module_path, line, col), bench: BenchEntryRunner::Plain(plain) }))
+    Box::leak(Box::new(BenchEntry { meta: meta(name, &raw_of(name), module_path, line, col), bench: BenchEntryRunner::Plain(plain) }))
 }
 
 /// The argument list the next tree construction uses. The runner of an entry
@@ -463,7 +469,7 @@ fn set_current_args(list: &[&'static str]) {
 fn args_entry(name: &str, module_path: &str, line: u32, col: u32, list: &[&'static str]) -> &'static BenchEntry {
     set_current_args(list);
     Box::leak(Box::new(BenchEntry {
-        meta: meta(name, name, module_path, line, col),
+        meta: meta(name, &raw_of(name), module_path, line, col),
         bench: BenchEntryRunner::Args(|| {
             let (args, list) = CURRENT_ARGS.lock().unwrap().expect("argument list");
             args.runner(|| list, |s| s.to_string(), |_, _| {})
@@ -490,7 +496,7 @@ fn generic_entry(
     consts: Option<&'static [i64]>,
 ) -> &'static GroupEntry {
     let group: &'static mut GroupEntry =
-        Box::leak(Box::new(GroupEntry { meta: meta(name, name, module_path, line, col), generic_benches: None }));
+        Box::leak(Box::new(GroupEntry { meta: meta(name, &raw_of(name), module_path, line, col), generic_benches: None }));
     let group_ptr: *mut GroupEntry = group;
     let group_ref: &'static GroupEntry = unsafe { &*group_ptr };
     let mk_ty = |t: u8| match t {
@@ -678,12 +684,12 @@ fn build(sibs: &[Sib]) -> Built {
             1 => b.benches.push(args_entry(s.name, "zoo", s.line, s.col, &["2", "10", "1"])),
             2 => {
                 // module `name` made a group, holding one bench placed after the group
-                b.benches.push(bench_entry("inner", leak(&format!("zoo::{}", s.name)), s.line + 1, 5));
-                b.groups.push(group_entry(s.name, s.name, "zoo", s.line, s.col));
+                b.benches.push(bench_entry("inner", leak(&format!("zoo::{}", raw_of(s.name))), s.line + 1, 5));
+                b.groups.push(group_entry(s.name, &raw_of(s.name), "zoo", s.line, s.col));
             }
             3 => {
                 // plain module: its location is its earliest child's
-                b.benches.push(bench_entry("inner", leak(&format!("zoo::{}", s.name)), s.line, s.col));
+                b.benches.push(bench_entry("inner", leak(&format!("zoo::{}", raw_of(s.name))), s.line, s.col));
             }
             4 => b.groups.push(generic_entry(s.name, "zoo", s.line, s.col, Some(&[2, 0, 1]), None)),
             _ => b.groups.push(generic_entry(s.name, "zoo", s.line, s.col, None, Some(&[10, 9, 100, -1]))),
@@ -744,7 +750,9 @@ fn flatten(nodes: &[NodeMirror], parent: &str, out: &mut Vec<String>) {
 }
 
 fn check_siblings(cli: &Cli, r: &Report) {
-    let names: [&'static str; 5] = ["a2", "a10", "b", "A", "a02"];
+    // (`a5` is written with a raw identifier: it sorts under its display name, before `b`, while its raw
+    // spelling `r#a5` would come after)
+    let names: [&'static str; 6] = ["a2", "a5", "a10", "b", "A", "a02"];
     let kinds: &[u8] = &[0, 1, 2, 3, 4, 5];
     // every set of <= 3 (4 thorough) siblings with distinct names, lines assigned
     // in declaration order or reversed
